@@ -5,8 +5,14 @@ import bitsets
 __all__ = ['Relation']
 
 
-Vector = bitsets.bases.MemberBits
-"""Single row or column of a boolean matrix as bit vector."""
+class Vector(bitsets.bases.MemberBits):
+    """Single row or column of a boolean matrix as bit vector."""
+
+    @classmethod
+    def frommembers(cls, members=()):
+        """Create a set from an iterable of members (``KeyError`` for the first unknown one)."""
+        # dict.fromkeys(): unique in argument order (set() of str raises for a hash-order dependent member)
+        return cls.fromint(sum(map(cls._map.__getitem__, dict.fromkeys(members))))
 
 
 class Vectors(bitsets.series.Tuple):
